@@ -15,7 +15,9 @@ use discret::verif_hooks::database::query_language::mutation_parser::MutationPar
 use discret::verif_hooks::database::query_language::parameter::Parameters;
 use discret::verif_hooks::database::query_language::{FieldType, ParamValue};
 use discret::verif_hooks::database::room::Room;
-use discret::verif_hooks::database::sqlite_database::prepare_connection;
+use discret::verif_hooks::database::sqlite_database::{prepare_connection, Writeable};
+use discret::verif_hooks::security::uid_encode;
+use discret::ParametersAdd;
 use discret::verif_hooks::database::Error as DbError;
 use discret::verif_hooks::date_utils::verif_clock;
 use discret::verif_hooks::security::{base64_decode, Ed25519SigningKey};
@@ -186,6 +188,89 @@ fn gen_head(rng: &mut Rng, w: &World, keys: &Keys, case: u64) -> (u64, Head) {
     }
     let (me, ent, old, date) = best.unwrap();
     (me, Head { ent, room, date, has_node: !rng.chance(1, 30), too_big: rng.chance(1, 30), old })
+}
+
+// ------------------------------------------------------------------ update requests submitted as text
+#[derive(Clone, Debug)]
+enum RefOp { None, SetOne(Vec<u64>, bool), ArrAdd(bool), Null(bool, Vec<u64>) }   // Null(on the array field?, stored authors)
+impl RefOp {
+    fn coq(&self) -> String {
+        let l = |v: &Vec<u64>| glist(&v.iter().map(|k| gn(*k)).collect::<Vec<_>>());
+        match self { RefOp::None => "RNone".into(), RefOp::SetOne(st, same) => format!("(RSetOne {} {})", l(st), gb(*same)),
+            RefOp::ArrAdd(p) => format!("(RArrAdd {})", gb(*p)), RefOp::Null(_, st) => format!("(RNull {})", l(st)) }
+    }
+}
+/// the whole local path: request text -> MutationParser -> MutationQuery::execute (on a connection holding the prior
+/// rows) -> RoomAuthorisations::validate_mutation; then the peer is handed exactly the row, references and tombstones
+/// that path produced.  obs = [local; rows sent; rows stored; references sent; stored; tombstones sent; stored]
+async fn run_request(rig: &Rig, case: u64, w: &World, me: u64, ent_room: Option<u64>, date: i64, author: u64, other: bool, op: &RefOp) -> (Vec<i64>, String) {
+    let dm = &rig.dm; let keys = &rig.keys;
+    let e1 = dm.dm.get_entity("ns.E1").unwrap();
+    let (f_one, f_subs) = (e1.fields.get("one").unwrap().short_name.clone(), e1.fields.get("subs").unwrap().short_name.clone());
+    let room_uid = ent_room.map(|r| cuid(case, r));
+    let mk = |idx: u64, ent: u64, a: u64, v: &str| { let mut n = Node { id: cuid(case, idx), room_id: room_uid, cdate: date - 9, mdate: date - 5, _entity: dm.short(ent), _json: name_json(dm, ent, v), ..Default::default() };
+        n.sign(keys.sk(a)).unwrap(); n };
+    let p = mk(100, 1, author, "old");
+    let t1 = mk(101, 2, author, "t1");
+    let t2 = mk(102, 2, author, "t2");
+    let mk_edge = |label: &str, dest: &Node, a: u64| { let mut e = Edge { src: p.id, src_entity: dm.short(1), label: label.to_string(), dest: dest.id, cdate: date - 5, ..Default::default() }; e.sign(keys.sk(a)).unwrap(); e };
+    // the stored references of the field the request touches, and the request text
+    let (stored, field_text, target): (Vec<Edge>, String, Option<&Node>) = match op {
+        RefOp::None => (vec![], String::new(), None),
+        RefOp::SetOne(st, same) => {
+            let stored: Vec<Edge> = st.iter().map(|a| mk_edge(&f_one, &t1, *a)).collect();
+            (stored, "one:{id:$t}".into(), Some(if *same { &t1 } else if st.is_empty() { &t1 } else { &t2 }))
+        }
+        RefOp::ArrAdd(present) => (if *present { vec![mk_edge(&f_subs, &t1, author)] } else { vec![] }, "subs:[{id:$t}]".into(), Some(&t1)),
+        RefOp::Null(arr, st) => {
+            let label = if *arr { &f_subs } else { &f_one };
+            let stored: Vec<Edge> = st.iter().enumerate().map(|(i, a)| mk_edge(label, if i == 0 { &t1 } else { &t2 }, *a)).collect();
+            (stored, format!("{}:null", if *arr { "subs" } else { "one" }), None)
+        }
+    };
+    let text = format!("mutate {{ ns.E1 {{ id:$p {} {} }} }}", if other { "name:\"renamed\"" } else { "" }, field_text);
+    // ---- local instance: a connection holding the prior rows
+    let conn = rusqlite::Connection::open_in_memory().unwrap();
+    prepare_connection(&conn).unwrap();
+    for n in [&p, &t1, &t2] { let mut c = clone_node(n); Writeable::write(&mut c, &conn).unwrap(); }
+    for e in &stored { e.write(&conn).unwrap(); }
+    let mut params = Parameters::default();
+    params.add("p", uid_encode(&p.id)).unwrap();
+    if let Some(t) = target { params.add("t", uid_encode(&t.id)).unwrap(); }
+    let parser = MutationParser::parse(&text, &dm.dm).unwrap();
+    verif_clock::set(date);
+    let mut mq = MutationQuery::execute(&mut params, Arc::new(parser), &conn).unwrap();
+    let mut ra = local_auth(w, me);
+    let local = match ra.validate_mutation(&mut mq) { Ok(_) => 0, Err(e) => verdict(&e) };
+    verif_clock::clear();
+    let ie = &mq.mutate_entities[0];
+    // ---- what the local path produced, signed by the caller (validate_mutation has signed it; signed again here so
+    // that the peer's verdict does not depend on where the local path signs)
+    let sent_node = ie.node_to_mutate.node.clone().map(|mut n| { n._local_id = None; n.sign(&ra.signing_key).unwrap(); n });
+    let adds: Vec<Edge> = ie.edge_insertions.iter().map(|e| { let mut e = e.clone(); e.sign(&ra.signing_key).unwrap(); e }).collect();
+    let sync_room = ie.node_to_mutate.room_id;
+    let tombs: Vec<EdgeDeletionEntry> = match sync_room {
+        Some(r) => if local == 0 && !ie.edge_deletions_log.is_empty() { ie.edge_deletions_log.iter().map(clone_edel).collect() }
+                   else { ie.edge_deletions.iter().map(|e| EdgeDeletionEntry::build(r, e, date, &ra.signing_key)).collect() },
+        None => vec![],
+    };
+    let (mut ns, mut ni, mut asent, mut ai, mut ts, mut ti) = (0, 0, 0, 0, 0, 0);
+    if let Some(r) = sync_room {
+        let rid = uid_index(&r) as u64;
+        for n in [&p, &t1, &t2] { rig.write_raw(Box::new(clone_node(n))).await; }
+        for e in &stored { rig.write_raw(Box::new(EdgeW(e.clone()))).await; }
+        if !tombs.is_empty() && Sig::edge_log_check(tombs.iter().map(clone_edel).collect()).is_ok() { let _ = rig.db.delete_edges(tombs.iter().map(clone_edel).collect()).await; }
+        if let Some(n) = &sent_node { push_node(rig, case, rid, n).await; }
+        if !adds.is_empty() && Sig::edges_check(adds.clone()).is_ok() { let _ = rig.db.add_edges(r, adds.clone()).await; }
+        let d = rig.raw_dump(case).await;
+        ns = sent_node.is_some() as i64;
+        ni = sent_node.as_ref().map(|n| d.nodes.contains(&n._signature) as i64).unwrap_or(0);
+        asent = adds.len() as i64;
+        ai = adds.iter().filter(|e| d.edges.contains(&e.signature)).count() as i64;
+        ts = tombs.len() as i64;
+        ti = tombs.iter().filter(|t| d.edels.contains(&t.signature)).count() as i64;
+    }
+    (vec![local, ns, ni, asent, ai, ts, ti], text)
 }
 
 // ------------------------------------------------------------------ rows at the size limit
@@ -470,6 +555,19 @@ async fn main() {
         out.push(Case { kind: "directed".into(), coq: format!("CWrite {} {} {} {} {}", defs_coq(&w.defs), rig.dm.coq(), gn(1), head_coq(&h, &[2, 1]), gn(1)),
             obs, meta: json!({"what": "repaired (25ca1a0): removal of another author's reference inside a mutation is refused locally"}) });
     }
+    // update requests as text: each reference operation, with and without another field, by a caller without any right
+    // in the room and by one with the all-rows right
+    {
+        let ops = vec![RefOp::SetOne(vec![], false), RefOp::SetOne(vec![2], false), RefOp::SetOne(vec![2], true), RefOp::ArrAdd(false), RefOp::ArrAdd(true),
+                       RefOp::Null(false, vec![2]), RefOp::Null(true, vec![2, 3]), RefOp::Null(false, vec![]), RefOp::None];
+        for op in &ops { for other in [false, true] { for me in [4u64, 1u64] {
+            case += 1;
+            let w = world(&rig, case, vec![(1, simple_room(&[(1, 0, true, true), (2, 0, true, false), (3, 0, true, false)]))]).await;
+            let (obs, text) = run_request(&rig, case, &w, me, Some(1), BASE, 2, other, op).await;
+            out.push(Case { kind: "directed".into(), coq: format!("CReq {} {} {} {} {} {} {} {} {}", defs_coq(&w.defs), rig.dm.coq(), gn(me), gn(1), gon(Some(1)), gz(BASE), gn(2), gb(other), op.coq()),
+                meta: json!({"text": text, "me": me, "local": obs[0], "peer": &obs[1..]}), obs });
+        } } }
+    }
     // rows at the size limit: every signed size from max-130 to max+130, creations and updates
     let max = (MAX_NODE_KB * 1024) as i64;
     for update in [false, true] {
@@ -483,7 +581,27 @@ async fn main() {
         case += 1;
         let mut r = rng.fork();
         match out.n % 9 {
-            0..=3 => {
+            3 => {
+                let w = world(&rig, case, gen_defs(&mut r)).await;
+                let room = match r.below(16) { 0 => None, _ => Some(1 + r.below(2)) };
+                let other = r.chance(1, 2);
+                let st = |r: &mut Rng, max: u64| -> Vec<u64> { (0..r.below(max + 1)).map(|_| 1 + r.below(4)).collect() };
+                let op = match r.below(9) { 0..=2 => { let s = st(&mut r, 1); let same = !s.is_empty() && r.chance(1, 3); RefOp::SetOne(s, same) }
+                    3..=4 => RefOp::ArrAdd(r.chance(1, 3)), 5 => RefOp::Null(false, st(&mut r, 1)), 6 => RefOp::Null(true, st(&mut r, 2)), _ => RefOp::None };
+                // mostly a caller entitled to rewrite the row at that date
+                let (mut me, mut date, mut author) = (1, BASE, 1);
+                for attempt in 0..12 {
+                    use discret::verif_hooks::database::room::RightType;
+                    me = 1 + r.below(4); date = *r.pick(&w.dates) + r.range(0, 2); author = if r.chance(3, 5) { me } else { 1 + r.below(4) };
+                    let right = if author == me { RightType::MutateSelf } else { RightType::MutateAll };
+                    let good = match room.and_then(|x| w.rooms.get(&cuid(case, x))) { Some(rm) => rm.can(&rig.keys.vk(me), &ent_name(1), date, &right), None => true };
+                    if good || (attempt == 0 && r.chance(1, 4)) { break; }
+                }
+                let (obs, text) = run_request(&rig, case, &w, me, room, date, author, other, &op).await;
+                out.push(Case { kind: "request".into(), coq: format!("CReq {} {} {} {} {} {} {} {} {}", defs_coq(&w.defs), rig.dm.coq(), gn(me), gn(1), gon(room), gz(date), gn(author), gb(other), op.coq()),
+                    meta: json!({"text": text, "local": obs[0], "peer": &obs[1..]}), obs });
+            }
+            0..=2 => {
                 let w = world(&rig, case, gen_defs(&mut r)).await;
                 let (me, h) = gen_head(&mut r, &w, &rig.keys, case);
                 let nadd = if h.has_node { [0, 0, 1, 2][r.below(4) as usize] } else { 0 };
